@@ -67,7 +67,7 @@ class C10(MsgProp):
                     else:
                         Cn = list(reversed(full))
                     cases.append((list(Sn), list(Gn), Cn, "order:" + order))
-            for inv in ("sat0", "sat65", "badsig", "badsig", "badsig", "badsig", "dupsat", "dupcell", "mismatch-extra-sat", "mismatch-extra-cell", "cells65",
+            for inv in ("sat0", "sat65", "cellsat0", "cellsat0", "badsig", "badsig", "badsig", "badsig", "dupsat", "dupcell", "mismatch-extra-sat", "mismatch-extra-cell", "cells65",
                         "only-sats", "only-cells"):
                 cases.append((None, None, None, inv))
             for S, G, C, inv in cases:
@@ -133,7 +133,7 @@ class C10(MsgProp):
             out += take_fields(sig_f, ("cell", sid, sg))
         return out
 
-    EXPECTED = {"sat0": "InvalidSatelliteId", "sat65": "InvalidSatelliteId", "badsig": "InvalidSignalId",
+    EXPECTED = {"sat0": "InvalidSatelliteId", "sat65": "InvalidSatelliteId", "cellsat0": "InvalidSatelliteId", "badsig": "InvalidSignalId",
                 "dupsat": "DuplicateSatellite", "dupcell": "DuplicateSatelliteSignal",
                 "mismatch-extra-sat": "SatelliteMismatch", "mismatch-extra-cell": "SatelliteMismatch",
                 "cells65": "InvalidSatelliteSignalCount", "only-sats": "SatelliteMismatch", "only-cells": "SatelliteMismatch"}
